@@ -249,8 +249,11 @@ def make_world(ctx, run, idx, case):
     root.mkdir(parents=True)
     (root / "other").mkdir()
     (root / "other" / "o.go").write_text("package other\n\ntype O interface{ F() }\n")
-    (root / "go.mod").write_text(vlib.GO_SUM_MOD.replace("example.com/w", mod))
-    shutil.copy(vlib.REPO / "go.sum", root / "go.sum")
+    if any(o["op"] == "run" for o in case["ops"]):
+        (root / "go.mod").write_text(vlib.GO_SUM_MOD.replace("example.com/w", mod))
+        shutil.copy(vlib.REPO / "go.sum", root / "go.sum")
+    else:       # init and showconfig never consult the module
+        (root / "go.mod").write_text(f"module {mod}\n\ngo 1.23\n")
     (root / "r.go").write_text(ROOT_GO)
     (root / "sub").mkdir()
     (root / "sub" / "a.go").write_text(SUB_A_GO)
@@ -426,20 +429,22 @@ def race_case(ctx, run, idx, n, rnd):
     pkgs = [f"{mod}/racer{i}" for i in range(n)]
     events = [{"op": "reset", "case": idx, "snap": snapshot(target), "parent_ok": target.parent.is_dir(), "gopkgs": []}]
     before, pres = snapshot(target), presence(target)
-    barrier = threading.Barrier(n)
-    res = [None] * n
-
-    def one(i):
-        e = go_env()
-        barrier.wait()
-        p = subprocess.run([run.bin, *pre, "init", *post, "--", pkgs[i]], cwd=cwd, env=e, capture_output=True, timeout=120)
-        res[i] = (p.returncode, (p.stderr + p.stdout).decode("utf8", "replace")[-300:])
-
-    ts = [threading.Thread(target=one, args=(i,)) for i in range(n)]
-    for t in ts:
-        t.start()
-    for t in ts:
-        t.join()
+    # all commands block on a FIFO and are released together (as close to simultaneous as processes get)
+    fifo = root.parent.parent / "gate"
+    os.mkfifo(fifo)
+    procs = [subprocess.Popen(["sh", "-c", 'read _ < "$0"; exec "$@"', str(fifo), run.bin, *pre, "init", *post, "--", pkgs[i]],
+                              cwd=cwd, env=go_env(), stdout=subprocess.PIPE, stderr=subprocess.STDOUT) for i in range(n)]
+    time.sleep(0.03 + 0.004 * n)
+    with open(fifo, "w"):
+        pass
+    res = []
+    for p_ in procs:
+        try:
+            out_, _ = p_.communicate(timeout=120)
+        except subprocess.TimeoutExpired:
+            p_.kill()
+            raise MachineryError("a concurrent mockery init did not finish")
+        res.append((p_.returncode, out_.decode("utf8", "replace")[-300:]))
     after = snapshot(target)
     winners = [pkgs[i] for i in range(n) if res[i][0] == 0]
     ev = {"op": "race", "case": idx, "n": n, "exits": [r[0] for r in res], "oks": len(winners),
@@ -620,7 +625,7 @@ def run(ctx):
     WEIRD.update(rnd)
     ids = sorted(rnd, key=lambda x: int(x[3:]))
     groups = [ids[i:i + 4] for i in range(0, len(ids), 4)]
-    worlds_txt = ", ".join('W("r%d", {%s, "sub"}, {"default", "rel"}, {"absent"})' % (gi + 1, ", ".join(json.dumps(x) for x in g))
+    worlds_txt = ", ".join('W("r%d", {%s, "sub"}, {%s}, {"absent"})' % (gi + 1, ", ".join(json.dumps(x) for x in g), '"default", "rel"' if thorough else '"default"')
                            for gi, g in enumerate(groups))
     r2 = ctx.tlc("InitCmdRnd", "InitCmd_rnd.cfg", workers=1, timeout=600, files={"InitCmdRnd.tla": RND_MODULE % worlds_txt})
     if not r2.ok:
@@ -718,10 +723,13 @@ def run(ctx):
     ns = sorted({c["n"] for c in ra.prints("CONC")})
     if len(ns) < 3:
         raise MachineryError(f"concurrent-init model exported too few sizes: {ns}")
-    rounds = 12 if thorough else 4
+    # schedules cannot be forced: repeat for a time budget (at least min_rounds, at most max_rounds rounds)
+    min_rounds, max_rounds, budget = (24, 400, 60.0) if thorough else (8, 80, 7.0)
     race_obs = []
     t0 = time.time()
-    for rnd in range(rounds):
+    for rnd in range(max_rounds):
+        if rnd >= min_rounds and time.time() - t0 > budget:
+            break
         for n in ns:
             idx = len(cases) + len(race_obs)
             evs, ob = race_case(ctx, run_, idx, n, rnd)
